@@ -456,6 +456,14 @@ impl Prop for C04 {
             st.eval();
             return check_any_text(text).map(|_| ()).map_err(|e| Fail::new(e, case.clone()));
         }
+        if case.get("kind").and_then(|k| k.as_str()) == Some("model") {
+            // {"kind":"model","model":FileM}: plain layout, exact range comparison
+            let m: crate::model::FileM =
+                serde_json::from_value(case["model"].clone()).map_err(|e| Fail::harness(format!("bad model: {e}")))?;
+            let d = DocCase::plain(m)?;
+            st.eval();
+            return check_doc(&d).map(|_| ()).map_err(|e| Fail::new(e, case.clone()));
+        }
         Err(Fail::harness("unknown case kind"))
     }
 }
